@@ -90,10 +90,28 @@ def gen_ops(rng, n):
     return ops
 
 
+def add_samestr(rng, atoms):
+    """distinct members that PRINT the same: two faces with one label, a boundary 'A_B' and an interior named 'A_B'"""
+    dim = atoms[0].get("dim", 2) if "dim" in atoms[0] else 2
+    c = rng.random()
+    if c < 0.5:
+        ax = rng.randrange(dim)
+        atoms += [{"t": "bnd", "name": "G", "dom": "Dsame", "dim": dim, "axis": ax, "ext": -1},
+                  {"t": "bnd", "name": "G", "dom": "Dsame", "dim": dim, "axis": ax, "ext": 1}]
+    else:
+        atoms += [{"t": "bnd", "name": "B", "dom": "Asame", "dim": dim}, {"t": "interior", "name": "Asame_B", "dim": dim}]
+    return atoms
+
+
 def gen_case(rng, kind):
     atoms = gen_atoms(rng, mixed=(kind == "mixed"))
+    if kind == "samestr":
+        atoms = add_samestr(rng, atoms)
     n = len(atoms)
     base = gen_tree(rng, n, rng.randint(0, 3), p_bad=0.15 if kind == "bad" else 0.0)
+    if kind == "samestr":   # make sure the two same-printing members occur, one of them twice and not adjacent
+        a, b = n - 2, n - 1
+        base["node"] = [{"leaf": a}, {"leaf": b}] + base["node"] + [{"leaf": rng.choice([a, b])}]
     case = {"kind": kind, "atoms": atoms, "trees": [base] + (variants(rng, base) if kind != "bad" else []),
             "complement": [], "iter": []}
     big = {"node": [{"leaf": i} for i in rng.sample(range(n), rng.randint(2, n))]}
@@ -181,20 +199,23 @@ def checks_of(case, res):
     """Flat list of (label, coq boolean term, printable model term)."""
     atoms = res["atoms"]
     out = []
+    beq = "result_seteq" if case["kind"] == "samestr" else "result_beq"
     for k, (t, r) in enumerate(zip(case["trees"], res["trees"])):
         tt = coq_tree(t, atoms)
-        out.append(("tree%d" % k, "result_beq (ueval %s) %s" % (tt, coq_res(r, atoms)), "ueval %s" % tt))
+        out.append(("tree%d" % k, "%s (ueval %s) %s" % (beq, tt, coq_res(r, atoms)), "ueval %s" % tt))
     for k, ((tu, ta), r) in enumerate(zip(case["complement"], res["complement"])):
         if r["r"] == "skip":
             continue
         a, b = coq_tree(tu, atoms), coq_tree(ta, atoms)
-        out.append(("compl%d" % k, "result_beq (compl %s %s) %s" % (a, b, coq_res(r, atoms)), "compl %s %s" % (a, b)))
+        out.append(("compl%d" % k, "%s (compl %s %s) %s" % (beq, a, b, coq_res(r, atoms)), "compl %s %s" % (a, b)))
     for k, (it, r) in enumerate(zip(case["iter"], res["iter"])):
         if r is None:
             continue
         a = coq_tree(it["tree"], atoms)
         out.append(("iter%d" % k, "iter_ok %s %s %s" % (a, coq_ops(it["ops"]), coq_outs(r["outs"], atoms)),
                     "match ueval %s with Ok (VUnion u) => irun u [] %s | _ => [] end" % (a, coq_ops(it["ops"]))))
+    if case["kind"] == "samestr":
+        return [o for o in out if not o[0].startswith("iter")]   # the order inside a same-key group is not modelled
     # the family must be well-formed for the theorems to apply (== is identity, str injective)
     out.append(("wf", "awf_b %s" % coq_list([coq_atom(i, a) for i, a in enumerate(atoms) if a["id"] == i]), "true"))
     return out
@@ -253,8 +274,12 @@ def oracle(case, res):
     # all variants denote the same set: equal members, hash and str
     if case["kind"] != "bad" and ok_results:
         l0, r0 = ok_results[0]
+        same = case["kind"] == "samestr"
         for lab, r in ok_results[1:]:
-            if (r["r"], ids(r)) != (r0["r"], ids(r0)):
+            if same:
+                if (r["r"], sorted(ids(r))) != (r0["r"], sorted(ids(r0))) or r.get("str") != r0.get("str"):
+                    bad.append((lab, "argument order / nesting changed the members or the printed form"))
+            elif (r["r"], ids(r)) != (r0["r"], ids(r0)):
                 bad.append((lab, "argument order / nesting changed the result"))
             elif r.get("hash") != r0.get("hash") or r.get("str") != r0.get("str"):
                 bad.append((lab, "argument order / nesting changed hash or str"))
@@ -328,7 +353,7 @@ def main(run, replay=None):
     else:
         cases += corpus
         for i in range(ncases):
-            kind = rng.choices(["plain", "mixed", "bad"], [0.8, 0.1, 0.1])[0]
+            kind = rng.choices(["plain", "mixed", "bad", "samestr"], [0.7, 0.1, 0.1, 0.1])[0]
             cases.append(gen_case(rng, kind))
 
     nb = 16
@@ -439,7 +464,7 @@ def main(run, replay=None):
     # --- evidence
     nchecks = agree + len(disagree)
     distinct = set()
-    hist = {"plain": 0, "mixed": 0, "bad": 0}
+    hist = {"plain": 0, "mixed": 0, "bad": 0, "samestr": 0}
     sizes = {}
     results_kinds = {}
     for case, res in zip(cases, results):
